@@ -252,9 +252,27 @@ void gc_run_omfalos(gc * collector, gc_stack * omfalos, int stack_size)
     gc_sweep_all(collector);
 }
 
+#ifdef NEVER_VERIF
+/* 0: the 80% rule, 1: collect at every safe point, 2: never collect,
+   3: ask never_verif_gc_oracle */
+int never_verif_gc_mode = 0;
+int (*never_verif_gc_oracle)(gc * collector) = NULL;
+void (*never_verif_gc_post_hook)(gc * collector, gc_stack * stack,
+                                 int stack_size, mem_ptr global_vec) = NULL;
+#endif
+
 void gc_run(gc * collector, gc_stack * stack, int stack_size,
             mem_ptr global_vec)
 {
+#ifdef NEVER_VERIF
+    if (never_verif_gc_mode == 2 ||
+        (never_verif_gc_mode == 3 && never_verif_gc_oracle != NULL &&
+         never_verif_gc_oracle(collector) == 0))
+    {
+        return;
+    }
+    if (never_verif_gc_mode == 0)
+#endif
     if (collector->wb_top[collector->w_index] < collector->mem_size * 0.8)
     {
         return;
@@ -266,6 +284,12 @@ void gc_run(gc * collector, gc_stack * stack, int stack_size,
         gc_mark(collector, global_vec);
     }
     gc_sweep_all(collector);
+#ifdef NEVER_VERIF
+    if (never_verif_gc_post_hook != NULL)
+    {
+        never_verif_gc_post_hook(collector, stack, stack_size, global_vec);
+    }
+#endif
 }
 
 mem_ptr gc_alloc_any(gc * collector, object * value)
